@@ -7,4 +7,5 @@ HARNESSES = [
     dict(name='rot', need_lib=True),
     dict(name='codec', need_schema=True),
     dict(name='timer', need_lib=True, extra_flags=['-ldl']),
+    dict(name='xmlh', need_lib=True, deps=['runtime/xml.cpp']),
 ]
